@@ -59,8 +59,12 @@ impl<'a> Lexer<'a> {
                 if self.input.is_empty() {
                     None
                 } else {
+                    // The span covers the whole unrecognized character,
+                    // which can be more than one byte.
                     let start = self.original_length - self.input.len();
-                    let end = start + 1;
+                    let len =
+                        self.input.chars().next().map_or(1, char::len_utf8);
+                    let end = start + len;
                     Some((Err(()), start..end))
                 }
             }
